@@ -21,7 +21,7 @@ LEVEL = "exploration"
 RULE = ("random for_all queries: universal variable of kind P or Q (|U| 1-4), the attribute expression q.p of it, a sub-query correlated with a free variable (an(entity(q, q.p == x))), or a restricted entity an(entity(u, restriction)) with the condition written over the variable or over the entity, "
         "1-3 free variables, condition trees of depth 0-3 over the full vocabulary (leaves, negations, conjunctions, "
         "disjunctions) mentioning the universal only / the free variables only / both, optionally and_-combined with a "
-        "condition on the free variables in either order; all free variables selected, or (a third of the cases with >= 2 free variables) only part of them; caching on and off. "
+        "condition on the free variables in either order; all free variables selected, or (a third of the cases with >= 2 free variables) only part of them; caching on and off; universal = flatten of plain numbers of a bound parent; universal = plain variable with a condition over a flattened element of a parent, the other condition before / after the for_all or absent (element unbound when the for_all is reached); feature-interaction queries of eqlmon/ix.py with for_all atoms (over the element's collection, over a sub-query containing a for_all, over a flatten with a free parent, over a plain variable with a two-object function predicate). "
         "Non-trivial: |U| >= 2 and the oracle result is neither empty nor all free assignments.")
 LEVEL_TEXT = ("Reference-model monitoring: rows of the real for_all query compared by identity with the universally "
               "quantified statement evaluated in plain Python. The node monitor must show ForAll entered with |U|>=2, "
